@@ -1,5 +1,6 @@
 import XsVerif.Driver.Util
 import XsVerif.Model.Access
+import XsVerif.Model.AccessTrace
 open Lean XsVerif.Driver XsVerif.Access
 
 namespace XsVerif.Driver.C12
@@ -66,6 +67,62 @@ def handle (j : Json) : Except String Json := do
     return Json.mkObj [("norm", normJson r.norm),
       ("base", match r.baseNorm with | some b => normJson b | none => Json.null),
       ("decision", match r.decision with | some d => Json.str (decisionStr d) | none => Json.null)]
+  | "coding" =>
+    -- the stdlib re-implementations, one string at a time (compared with CPython by the harness)
+    let p := toBytes (← getStr j "p")
+    let sp := urlsplit p
+    return Json.mkObj [("normpath", jb (normpath p)), ("quote", jb (quote p)), ("unquote", jb (unquote p)),
+      ("dirname", jb (dirname p)), ("utf8", validUtf8 p), ("uq_utf8", validUtf8 (unquote p)),
+      ("quote_path", jb (quoteWith [47] p)), ("quote_netloc", jb (quoteWith [64, 58] p)),
+      ("quote_query", jb (quoteWith querySafe p)), ("quote_local", jb (quoteWith [58, 47, 92] p)),
+      ("unsplit", jb (urlunsplit sp.scheme sp.netloc sp.path sp.query sp.fragment)),
+      ("split", Json.arr #[jb sp.scheme, jb sp.netloc, jb sp.path, jb sp.query, jb sp.fragment]),
+      ("class", classStr (classify p))]
+  | "render" =>
+    let cwd := toBytes (← getStr j "cwd")
+    let base ← optBytes j "base"
+    let url := toBytes (← getStr j "url")
+    let r := remoteUrl cwd base url
+    return Json.mkObj [("norm", normJson (normalizeUrl cwd base url)),
+      ("url", match r with | some u => jb u | none => Json.null),
+      ("class", match r with | some u => Json.str (classStr (classify u)) | none => Json.null),
+      ("scheme", match r with | some u => jb (urlsplit u).scheme | none => Json.null)]
+  | "trace" =>
+    let a ← parseAllow (← getStr j "allow")
+    let cwd := toBytes (← getStr j "cwd")
+    let base ← optBytes j "base"
+    let root ← getBool j "root"
+    let docs := (← getStrList j "docs").map toBytes
+    let mapper ← (← getArr j "mapper").toList.mapM fun kv => do
+      let a ← kv.getArr?
+      if h : a.size = 2 then pure (toBytes (← a[0].getStr?), toBytes (← a[1].getStr?)) else throw "mapper"
+    -- the tree arrives in postorder: [loc, strict, number of children]
+    let nodes ← (← getArr j "nodes").toList.mapM fun x => do
+      let a ← x.getArr?
+      if h : a.size = 3 then pure (toBytes (← a[0].getStr?), ← a[1].getBool?, ← a[2].getNat?) else throw "node"
+    let stack := nodes.foldl (fun (st : List LoadTree) (x : Bytes × Bool × Nat) =>
+      LoadTree.node x.1 x.2.1 (st.take x.2.2).reverse :: st.drop x.2.2) []
+    -- `docs`: rendered URLs of the local documents that exist; a remote location is taken as readable
+    -- (the tree sent by the harness is what the documents really contain: a location that yields no
+    -- document has no references, so its readability does not change the trace)
+    let readable : Norm → Bool := fun n =>
+      match n with
+      | .file _ u => docs.contains u
+      | .remote .. => true
+      | _ => false
+    match stack with
+    | [t] =>
+      let r := if root then loadRoot a cwd mapper readable base t else loadNode a cwd mapper readable base t
+      let evJson : Event → Json
+        | .opened b loc n => Json.mkObj [("ev", "opened"), ("base", match b with | some x => jb x | none => Json.null),
+            ("loc", jb loc), ("norm", normJson n),
+            ("rurl", match remoteUrl cwd b (applyMapper mapper (strip loc)) with | some u => jb u | none => Json.null)]
+        | .blocked b loc d => Json.mkObj [("ev", "blocked"), ("base", match b with | some x => jb x | none => Json.null),
+            ("loc", jb loc), ("decision", decisionStr d)]
+        | .undecided b loc => Json.mkObj [("ev", "undecided"), ("base", match b with | some x => jb x | none => Json.null),
+            ("loc", jb loc)]
+      return Json.mkObj [("events", Json.arr (r.1.map evJson).toArray), ("aborted", r.2)]
+    | _ => throw "trace: malformed postorder tree"
   | _ => throw s!"unknown op {op}"
 
 end XsVerif.Driver.C12
